@@ -1,6 +1,7 @@
 import BobModel.Proofs.C12Events
 import BobModel.Proofs.C12Ops
 import BobModel.Proofs.C12Conv
+import BobModel.Proofs.C12Order
 /-
 C12 — Checkouts converge to the recipe and never destroy user work.
 
@@ -56,6 +57,27 @@ theorem fresh_checkout_path_free (new : List (NewEntry σ)) (st : St σ κ) (h :
   simp only [Bool.and_eq_true, bne_iff_ne, ne_eq, Bool.not_eq_true', List.any_eq_false, beq_iff_eq,
     not_and, Bool.not_eq_true] at this
   exact this ⟨hdot, fun e he => hold e he⟩
+
+/-- **The loop is top-down**: `checkoutsFromState` orders by path components, so no SCM directory is
+visited before a directory it is nested in - whatever the names (fixed finding F-C12-3). -/
+theorem checkouts_top_down (old : List (OldEntry σ)) :
+    (sortedOld old).Pairwise (fun x y =>
+      ¬ (isPrefix (normComps y.dir) (normComps x.dir) = true ∧ normComps y.dir ≠ normComps x.dir)) :=
+  sortedOld_topdown old
+
+/-- once a directory was moved to the attic, every directory at or below it is recognised as affected
+(`AtticTracker`), so nested SCMs are dropped from the state and registered with their parent -/
+theorem tracker_catches_nested (tr : List (Comps × Nat)) (p q : Comps) (n : Nat) (h : isPrefix p q = true) :
+    (trackerMatch (trackerAdd tr p n) q).isSome = true := by
+  unfold trackerMatch
+  rw [List.find?_isSome]
+  unfold trackerAdd
+  split
+  · rename_i hany
+    rw [List.any_eq_true] at hany
+    obtain ⟨e, he, hep⟩ := hany
+    refine ⟨(p, n), List.mem_map.mpr ⟨e, he, by simp [hep]⟩, h⟩
+  · exact ⟨(p, n), List.mem_append_right _ (List.mem_singleton.mpr rfl), h⟩
 
 /-- the moved directory keeps every nested SCM directory: the contents are the same, only the
 location changes (`os.rename`) -/
